@@ -1219,7 +1219,10 @@ class C08(ExpectSpec):
                   'rendered the same, with the same session, whatever follows it: for every suffix, definition table and mode; C08_list_block_local '
                   'for lists). Per kind: C08_plain_paragraph, C08_fenced_code_block (fenced code to pre/code around the escaped content, any content), '
                   'C08_comment_block_renders_nothing (a comment block renders to the empty string and leaves the session unchanged, whatever it '
-                  'holds); the other kinds (headers, quote and division blocks, HTML blocks, definitions) are decided by the block-grammar oracle '
+                  'holds), C08_header with C08_header_level (the document "#...# title", one to six hash signs, renders to <hK>title</hK> with K the number '
+                  'of hash signs, session unchanged: the header pattern has one derivation on the line, the template is evaluated with the cumulative '
+                  'expansion rules of replaceMatch, the marker text is replaced by its length); the other kinds (quote and division blocks, HTML '
+                  'blocks, definitions) are decided by the block-grammar oracle '
                   'and correspondence.')
     rule = ('documents from a block grammar (paragraph, header, fenced code, indented, quote paragraph, quote/division blocks nested to depth 3 '
             'with distinct delimiters and optional class names, HTML block, comments, definitions; 1-2 blank lines) in every safe mode; '
